@@ -18,8 +18,12 @@ CMP = ["<", "<=", "==", "!=", ">", ">="]
 
 
 class Gen:
-    def __init__(self, rng, hostile=False, wide=False):
-        self.rng, self.hostile, self.wide = rng, hostile, wide
+    def __init__(self, rng, cls="hostile", wide=False):
+        """cls: 'closed-unsigned' (all unsigned, no negative constants / unary minus; arithmetic anywhere at the top of a
+        right-hand side), 'closed-mixed' (signedness mixes; an arithmetic operator only as the root of a right-hand side
+        with leaf operands, so that LiteX's $signed({1'd0, x}) wrapper never contains arithmetic), 'hostile' (anything)"""
+        self.rng, self.cls, self.wide = rng, cls, wide
+        self.hostile = cls == "hostile"
         self.sigs = []          # {"w":, "s":, "kind": in/comb/sync, "reset":, "dom":}
         self.hostile_targets = set()
         self._hostile_used = False
@@ -27,7 +31,7 @@ class Gen:
     def new_sig(self, kind, dom=None):
         r = self.rng
         w = r.choice([1, 1, 2, 3, 4, 5, 8, 8, 12]) if not self.wide else r.choice([1, 8, 33, 40, 64, 70])
-        s = r.random() < 0.35 and w > 1
+        s = r.random() < 0.35 and w > 1 and self.cls != "closed-unsigned"
         reset = r.getrandbits(w)
         if s and reset >= (1 << (w - 1)):
             reset -= 1 << w
@@ -39,7 +43,7 @@ class Gen:
     def const(self):
         r = self.rng
         nb = r.choice([1, 2, 3, 4, 8])
-        if r.random() < 0.3:
+        if r.random() < 0.3 and self.cls != "closed-unsigned":
             v = -r.randint(1, 1 << (nb - 1)) if nb > 1 else -1
             return ["const", v, None, None]
         v = r.getrandbits(nb)
@@ -56,6 +60,9 @@ class Gen:
         if depth <= 0 or r.random() < 0.25:
             return self.leaf(pool)
         allow_arith = arith_ok or self.hostile
+        if self.cls == "closed-mixed" and not getattr(self, "_root", False):
+            allow_arith = False
+        self._root = False
         choices = ["bit", "bit", "cmp", "mux", "slice", "cat", "rep", "shr", "not"]
         if allow_arith:
             choices += ["arith", "arith", "arith", "shl"]
@@ -64,8 +71,14 @@ class Gen:
         c = r.choice(choices)
         if c in ("arith", "shl") and not arith_ok:
             self._hostile_used = True
+        if c in ("arith", "shl") and self.cls == "closed-mixed":
+            # only leaf operands: no arithmetic can end up inside a $signed({1'd0, ...}) wrapper
+            if c == "shl":
+                return ["op", "<<<", self.leaf(pool), ["const", r.randint(0, 3), None, None]]
+            op = r.choice(["+", "-", "*"])
+            return ["op", op, self.leaf(pool), self.leaf(pool)]
         if c == "arith":
-            op = r.choice(["+", "-", "*", "neg"])
+            op = r.choice(["+", "-", "*", "neg"] if self.cls != "closed-unsigned" else ["+", "-", "*"])
             if op == "neg":
                 return ["op", "-", self.expr(pool, depth - 1, arith_ok)]
             return ["op", op, self.expr(pool, depth - 1, arith_ok), self.expr(pool, depth - 1, arith_ok)]
@@ -85,6 +98,8 @@ class Gen:
             return ["op", ">>>", self.expr(pool, depth - 1, False), amt]
         if c == "slice":
             e = self.expr(pool, depth - 1, False)
+            if e[0] == "array":
+                return e      # slicing an Array of unequal widths beyond a narrow element makes convert() assert: outside "designs LiteX can elaborate"
             return ["slice", e, None, None]          # bounds chosen at build time from the actual length
         if c == "cat":
             return ["cat", [self.expr(pool, depth - 1, False) for _ in range(r.randint(1, 3))]]
@@ -92,7 +107,10 @@ class Gen:
             return ["rep", self.expr(pool, depth - 1, False), r.randint(1, 3)]
         if c == "array":
             n = r.randint(2, 4)
-            return ["array", [self.leaf(pool) for _ in range(n)], self.small_sig(pool)]
+            key = self.small_sig(pool)
+            if key[0] == "const":
+                key = ["const", key[1] % n, None, None]
+            return ["array", [self.leaf(pool) for _ in range(n)], key]
         raise ValueError(c)
 
     def small_sig(self, pool):
@@ -116,7 +134,9 @@ class Gen:
         c = r.choice(["assign", "assign", "if", "case"]) if depth > 0 else "assign"
         if c == "assign":
             self._hostile_used = False
+            self._root = True
             e = self.expr(pool, r.randint(1, 3), True)
+            self._root = False
             if self._hostile_used:
                 self.hostile_targets.add(ti)
             return [["assign", self.target(ti), e]]
@@ -166,7 +186,7 @@ class Gen:
         # memories
         for mi in range(r.choice([0, 0, 1, 1, 2])):
             width = r.choice([4, 8, 8, 12, 16])
-            depth = r.choice([2, 4, 5, 8])
+            depth = r.choice([2, 4, 8, 16])
             init = r.choice([None, "full", "short"])
             ports = []
             for pi in range(r.randint(1, 2)):
@@ -231,6 +251,7 @@ def build(spec):
                     a, b = 0, n
             else:
                 a, b = e[2], e[3]
+            assert 0 <= a < b <= n, (e, n, a, b)
             return v[a:b]
         if k == "cat":
             return Cat(*[E(x) for x in e[1]])
